@@ -196,6 +196,7 @@ def run(tier: str) -> int:
         if len(samples) < 4 and i % 37 == 0:
             samples.append({"nodes": nodes, "detail": detail, "outcome": pv["outcome"], "records": [r.get("record_type") for r in t1["records"]]})
     exotic_payloads(rep, stats)
+    exotic_parameters(rep, stats)
     rep.coverage.update({
         "evaluations": stats["observational_runs"] + stats["repro_fresh"] + stats["repro_same_object"] + stats["repro_after_history"],
         "distinct_nontrivial": stats["pipelines"],
@@ -260,6 +261,57 @@ def exotic_payloads(rep, stats):
                     rep.add_violation(f"tracing-changes-result:{kind}:{where}:{detail}",
                                       f"with a trace driver attached (detail={detail}) a run whose {where} carries a {kind} returns something else than the untraced run",
                                       {"kind": kind, "where": where, "detail": detail, "untraced": plain, "traced": traced})
+
+
+EXOTIC_VALUES = {
+    "nan": float("nan"), "inf": float("inf"), "-inf": float("-inf"), "lone-surrogate": "r\udce9sultat", "astral": "\U0001d6fc-\U0001f600",
+    "huge-int": 10 ** 30, "bytes": b"ab\xff", "tuple": (1, 2), "set": {1}, "complex": 1 + 2j, "long-string": "x" * 5000,
+    "control-chars": "a\x00b\x1fc\n", "nested-nan": {"k": [float("nan")]},
+}
+
+
+def exotic_parameters(rep, stats):
+    """Unusual but legal parameter values (non-finite floats, lone surrogates, bytes, ...) in the node configuration and in
+    the context: a traced run must return or raise exactly what the untraced run does, at every detail level."""
+    pipegen.setup()
+    from semantiva.pipeline import Pipeline, Payload
+    from semantiva.context_processors import ContextType
+    from semantiva.data_types import NoDataType
+    from semantiva.trace.drivers.jsonl import JsonlTraceDriver
+
+    def view(x):
+        try:
+            return json.dumps(pipegen.enc(x), sort_keys=True, default=repr)
+        except Exception:
+            return repr(x)
+    for kind, val in EXOTIC_VALUES.items():
+        for where in ("node-config", "context", "error-message"):
+            def build():
+                if where == "node-config":
+                    return [{"processor": "TSource", "parameters": {"v": val}}, {"processor": "TOp0"}], {}
+                if where == "context":
+                    return [{"processor": "TSourceDef"}, {"processor": "TOp1"}], {"a": val}
+                return [{"processor": "TSourceDef"}, {"processor": "TOp1", "parameters": {"a": 1}}, {"processor": "TMerge"}], {"note": val}
+
+            def outcome(trace):
+                nodes, ctx = build()
+                try:
+                    pipe = Pipeline(nodes, trace=trace) if trace is not None else Pipeline(nodes)
+                    out = pipe.process(Payload(NoDataType(), ContextType(dict(ctx))))
+                    return ("ok", view(out.data.data))
+                except BaseException as exc:  # noqa: BLE001
+                    return ("raises", type(exc).__name__)
+            plain = outcome(None)
+            for detail in tracegen.DETAILS:
+                for to_file in (True, False):
+                    with rt.tempdir() as d:
+                        target = d / ("t.jsonl" if to_file else "tdir")
+                        traced = outcome(JsonlTraceDriver(str(target), detail=detail))
+                    stats["exotic_parameter_runs"] = stats.get("exotic_parameter_runs", 0) + 1
+                    if traced != plain:
+                        rep.add_violation(f"tracing-changes-outcome:exotic-value:{kind}:{where}",
+                                          f"with a trace driver attached (detail={detail}) a run with a {kind} value in the {where} does not return / raise what the untraced run does",
+                                          {"kind": kind, "where": where, "detail": detail, "untraced": plain, "traced": traced, "value": repr(val)[:80]})
 
 
 def compare_traces(rep, pub, ra, rb, how, detail, has_sweep, already_normalised_b=False):
